@@ -32,6 +32,8 @@ type node struct {
 	base     snap
 	shrinks  atomic.Int64 // AOFSHRINK runs that ended
 	stopped  bool
+	// keepRunning: never call Stop on this in-process server (see stopAsync)
+	keepRunning bool
 }
 
 // snap is the observable state of a node.
@@ -54,6 +56,16 @@ func (n *node) stopAsync() {
 		n.admin.Close()
 	}
 	verifhook.Unregister(n.srv.Dir)
+	if n.keepRunning {
+		// A server that has (or just had) replication / AOF stream connections is
+		// not shut down while the test process lives: its shutdown goroutine walks
+		// the map of those connections without the server lock (server.go, Serve:
+		// "for conn, f := range s.aofconnM"), and a follower disconnecting at that
+		// moment ends the process with "concurrent map iteration and map write"
+		// (reported as suspected defect crash-shutdown-aofconn-map-race). It ends
+		// with the process.
+		return
+	}
 	stopWG.Add(1)
 	go func() {
 		defer stopWG.Done()
